@@ -5,8 +5,8 @@ use educe::Educe;
 use core::cmp::Ordering;
 #[derive(Educe)]
 #[educe(Hash)]
-pub struct T { _0: A<0>, #[educe(Hash(ignore(true)))] other: A<1>, #[educe(Hash(method("m_hash")))] a: A<0> }
-pub fn values() -> Vec<T> { vec![T { _0: A(0), other: A(0), a: A(0) }, T { _0: A(0), other: A(0), a: A(1) }, T { _0: A(0), other: A(0), a: A(7) }, T { _0: A(0), other: A(1), a: A(0) }, T { _0: A(0), other: A(1), a: A(1) }, T { _0: A(0), other: A(1), a: A(7) }, T { _0: A(0), other: A(7), a: A(0) }, T { _0: A(0), other: A(7), a: A(1) }, T { _0: A(0), other: A(7), a: A(7) }, T { _0: A(1), other: A(0), a: A(0) }, T { _0: A(1), other: A(0), a: A(1) }, T { _0: A(1), other: A(0), a: A(7) }, T { _0: A(1), other: A(1), a: A(0) }, T { _0: A(1), other: A(1), a: A(1) }, T { _0: A(1), other: A(1), a: A(7) }, T { _0: A(1), other: A(7), a: A(0) }, T { _0: A(1), other: A(7), a: A(1) }, T { _0: A(1), other: A(7), a: A(7) }, T { _0: A(7), other: A(0), a: A(0) }, T { _0: A(7), other: A(0), a: A(1) }, T { _0: A(7), other: A(0), a: A(7) }, T { _0: A(7), other: A(1), a: A(0) }, T { _0: A(7), other: A(1), a: A(1) }, T { _0: A(7), other: A(1), a: A(7) }, T { _0: A(7), other: A(7), a: A(0) }, T { _0: A(7), other: A(7), a: A(1) }, T { _0: A(7), other: A(7), a: A(7) }] }
-pub fn show(x: &T) -> String { #[allow(unused_variables)] match x { T { _0: p0, other: p1, a: p2 } => format!("T({},{},{})", sv(p0), sv(p1), sv(p2)) } }
-pub fn o_hash(x: &T) -> Vec<String> { let mut e = Rec::default(); match x { T { _0: p0, other: p1, a: p2 } => { ::core::hash::Hash::hash(p0, &mut e); m_hash(p2, &mut e); } } e.0 }
+pub struct T(A<0>);
+pub fn values() -> Vec<T> { vec![T(A(0)), T(A(1)), T(A(7))] }
+pub fn show(x: &T) -> String { #[allow(unused_variables)] match x { T(p0) => format!("T({})", sv(p0)) } }
+pub fn o_hash(x: &T) -> Vec<String> { let mut e = Rec::default(); match x { T(p0) => { ::core::hash::Hash::hash(p0, &mut e); } } e.0 }
 pub fn run(out: &mut Out) { let vs = values(); for a in &vs { let mut g = Rec::default(); ::core::hash::Hash::hash(a, &mut g); let e = o_hash(a); out.check(g.0 == e, "hash_22", "hash", || format!("hash({}) fed {:?} expected {:?}", show(a), g.0, e)); } }
